@@ -106,6 +106,13 @@ def ref_noise(case, n):
 
 
 def cell(case):
+    """'tnoise-singular' when the task-noise matrix D (+ sigma^2 I) is numerically singular (rank < t, or a degenerate factor, without
+    global noise): the cell in which the dependency's SumKroneckerLinearOperator (generalised eigen-decomposition with the noise
+    summand) is wrong."""
     lr = case["lik"]
-    sing = lr["task"] and lr["rank"] > 0 and lr["rank"] < case["t"] and not lr["global"]
+    sing = False
+    if lr["task"] and lr["rank"] > 0 and not lr["global"]:
+        with torch.no_grad():
+            ev = torch.linalg.eigvalsh(ref_task_noise(case).detach())
+        sing = bool(ev[0] <= 1e-8 * ev[-1])
     return f"tnoise{'-singular' if sing else ''}"
